@@ -75,3 +75,84 @@ package memstore
 //@     invariant writer != nil && swReady(writer) && it != nil
 //@     invariant [failed-step-stops-the-flush] (called(WriteNext, 0) ==> callres(WriteNext, 0, 0) == nil) && (called(WriteNext, 1) ==> callres(WriteNext, 1, 0) == nil) &&
 //@               (called(IteratorI.Next, 0) ==> callres(IteratorI.Next, 0, 2) == nil)
+
+// ---------------------------------------------------------------------------------------------------
+// C14: the concrete MemStore against the map-with-tombstones view.
+// vcell(m,k): the value cell (*[]byte) stored for key k in m's skip list; the view is derived from concrete state:
+//   cst(m,k) = 0 absent / 1 tombstoned (cell holds nil) / 2 present;  cvl(m,k) = the slice in the cell.
+
+//@ spec func vcell(m *MemStore, k Bytes) Ref = asType(ValueStruct, slValOf(m.skipListMap, k)).value
+//@ spec func cst(m *MemStore, k Bytes) Int = slHas(m.skipListMap, k) ? (isnil(deref(vcell(m, k))) ? 1 : 2) : 0
+//@ spec func cvl(m *MemStore, k Bytes) Slice = deref(vcell(m, k))
+// memRI(m): every key has its own, non-nil value cell (no two keys share a cell).
+//@ spec func memRI(m *MemStore) Bool = m.skipListMap != nil &&
+//@      (forall k Bytes :: slHas(m.skipListMap, k) ==> vcell(m, k) != nil) &&
+//@      (forall k1 Bytes, k2 Bytes :: slHas(m.skipListMap, k1) && slHas(m.skipListMap, k2) && k1 != k2 ==> vcell(m, k1) != vcell(m, k2))
+
+//@ func upsertInternal
+//@   props C14
+//@   replay memstore_ops
+//@   requires [ri] memRI(m)
+//@   requires [cells-preexist] forall k Bytes :: slHas(m.skipListMap, k) ==> !fresh(vcell(m, k))
+//@   ensures [ri-kept] memRI(m)
+//@   ensures [nil-key] isnil(key) ==> r0 == KeyNil
+//@   ensures [nil-value] !isnil(key) && isnil(value) ==> r0 == ValueNil
+//@   ensures [exists] !isnil(key) && !isnil(value) && errorIfKeyExist && old(cst(m, content(key))) == 2 ==> r0 == KeyAlreadyExists
+//@   ensures [stored] !isnil(key) && !isnil(value) && !(errorIfKeyExist && old(cst(m, content(key))) == 2) ==>
+//@           r0 == nil && cst(m, content(key)) == 2 && cvl(m, content(key)) === value
+//@   ensures [error-changes-nothing] r0 != nil ==> m.estimatedSize == old(m.estimatedSize) &&
+//@           (forall k Bytes :: cst(m, k) == old(cst(m, k)) && (old(cst(m, k)) != 0 ==> cvl(m, k) === old(cvl(m, k))))
+//@   ensures [other-keys-untouched] forall k Bytes :: k != old(content(key)) ==> cst(m, k) == old(cst(m, k)) && (old(cst(m, k)) != 0 ==> cvl(m, k) === old(cvl(m, k)))
+
+//@ func deleteInternal
+//@   props C14
+//@   replay memstore_ops
+//@   requires [ri] memRI(m)
+//@   ensures [ri-kept] memRI(m)
+//@   ensures [absent] old(cst(m, content(key))) == 0 ==> (errorIfKeyNotFound ==> r0 == KeyNotFound) && (!errorIfKeyNotFound ==> r0 == nil) && cst(m, content(key)) == 0
+//@   ensures [deleted] old(cst(m, content(key))) != 0 ==> r0 == nil && cst(m, content(key)) == 1
+//@   ensures [other-keys-untouched] forall k Bytes :: k != old(content(key)) ==> cst(m, k) == old(cst(m, k)) && (old(cst(m, k)) != 0 ==> cvl(m, k) === old(cvl(m, k)))
+
+//@ func (*MemStore).Tombstone
+//@   props C14
+//@   replay memstore_ops
+//@   requires [ri] memRI(m)
+//@   requires [cells-preexist] forall k Bytes :: slHas(m.skipListMap, k) ==> !fresh(vcell(m, k))
+//@   ensures [ri-kept] memRI(m)
+//@   ensures [tombstoned] r0 == nil && cst(m, content(key)) == 1
+//@   ensures [other-keys-untouched] forall k Bytes :: k != old(content(key)) ==> cst(m, k) == old(cst(m, k)) && (old(cst(m, k)) != 0 ==> cvl(m, k) === old(cvl(m, k)))
+
+//@ func (*MemStore).Get
+//@   props C14
+//@   requires [ri] memRI(m)
+//@   ensures [absent] cst(m, content(key)) == 0 ==> r1 == KeyNotFound && isnil(r0)
+//@   ensures [tomb] cst(m, content(key)) == 1 ==> r1 == KeyTombstoned && isnil(r0)
+//@   ensures [present] cst(m, content(key)) == 2 ==> r1 == nil && r0 === cvl(m, content(key))
+//@   modifies nothing
+
+//@ func (*MemStore).Contains
+//@   props C14
+//@   requires [ri] memRI(m)
+//@   ensures r0 <==> cst(m, content(key)) == 2
+//@   modifies nothing
+
+//@ func (*MemStore).IsTombstoned
+//@   props C14
+//@   requires [ri] memRI(m)
+//@   ensures r0 <==> cst(m, content(key)) == 1
+//@   modifies nothing
+
+//@ func (*MemStore).Size
+//@   props C14
+//@   requires m.skipListMap != nil
+//@   ensures [counts-tombstones] r0 == slSize(m.skipListMap)
+//@   modifies nothing
+
+//@ func (SkipListSStableIterator).Next
+//@   props C14 C11
+//@   requires s.iterator != nil
+//@   ensures [done] errIs(slIErr(s.iterator, old(slIPos(s.iterator))), skiplist.Done) ==> r2 == sstables.Done
+//@   ensures [error-propagates] slIErr(s.iterator, old(slIPos(s.iterator))) != nil && !errIs(slIErr(s.iterator, old(slIPos(s.iterator))), skiplist.Done) ==>
+//@           r2 == slIErr(s.iterator, old(slIPos(s.iterator)))
+//@   ensures [ok] slIErr(s.iterator, old(slIPos(s.iterator))) == nil ==> r2 == nil && r0 === slIKey(s.iterator, old(slIPos(s.iterator)))
+//@   modifies slIPos(s.iterator)
